@@ -923,6 +923,77 @@ def r12(k: Kit) -> None:
     rep.floor('C01.R12', 'Poly1305 tag operations', n, 2)
 
 
+def r13(k: Kit) -> None:
+    """Poly1305 key and packet body come from different keystream blocks."""
+    rep = k.rep
+    idx = k.idx
+    rep.rule('C01.R13', 'chacha20-poly1305: with the main key, the '
+             'per-packet Poly1305 key is keystream block 0 and the packet '
+             'body is encrypted from a different block counter (1); '
+             'chacha20() lets the counter argument decide the counter bytes '
+             '- body bytes XORed with the Poly1305 key block would hand '
+             'that key to anyone who can guess 32 plaintext bytes, who can '
+             'then alter the rest of the packet and re-tag it')
+    cf = k.func('crypto.chacha.chacha20')
+    params = [a.arg for a in cf.node.args.args]
+    defaults = dict(zip(params[len(params) - len(cf.node.args.defaults):],
+                        cf.node.args.defaults))
+    if 'ctr' not in params:
+        rep.error('C01.R13', key(cf, 'ctr parameter'),
+                  'chacha20() has no ctr parameter')
+        return
+    ci = params.index('ctr')
+
+    def ctr_of(c: ast.Call):
+        e = c.args[ci] if len(c.args) > ci else None
+        for kw in c.keywords:
+            if kw.arg == 'ctr':
+                e = kw.value
+        if e is None:
+            e = defaults.get('ctr')
+        if isinstance(e, ast.Constant) and isinstance(e.value, int):
+            return int(e.value)
+        return None
+    # the cipher constructor's nonce depends on ctr
+    dep = False
+    for c in ast.walk(cf.node):
+        if is_call(c, 'ChaCha20') and len(c.args) > 1 and \
+                'ctr' in names_read(c.args[1]):
+            dep = True
+    rep.check(dep, 'C01.R13', key(cf, 'counter argument is used'),
+              'ChaCha20(key, <counter from ctr> + nonce)',
+              'chacha20() ignores its ctr argument: every call uses the '
+              'same keystream block', cf.loc(cf.node))
+    pk = k.func('crypto.chacha.poly1305_key')
+    pc = [ctr_of(c) for n, c in k.calls_named(pk, 'chacha20')]
+    rep.check(pc == [0], 'C01.R13', key(pk, 'Poly1305 key is block 0'),
+              'chacha20(key, 32 zero bytes, nonce, 0)',
+              f'poly1305_key uses block counter(s) {pc}: not the '
+              'chacha20-poly1305@openssh.com construction, an RFC peer '
+              'rejects every packet', pk.loc(pk.node))
+    n = 0
+    for fi in idx.iter_funcs(['crypto.chacha']):
+        if fi.cls is None:
+            continue
+        for nd, c in k.calls_named(fi, 'chacha20'):
+            kexp = dotted(c.args[0]) if c.args else None
+            if kexp != 'self._key':
+                continue
+            n += 1
+            v = ctr_of(c)
+            rep.check(v is not None and v != 0 and v not in pc, 'C01.R13',
+                      key(fi, 'body is not encrypted with the Poly1305 '
+                              'key block'),
+                      f'chacha20(self._key, ..., ctr={v})',
+                      f'packet data is encrypted with the main key at block '
+                      f'counter {v}: the first 32 keystream bytes of the '
+                      'body are this packet\'s Poly1305 key - predict 32 '
+                      'plaintext bytes (padlen, type, channel, length, 22 '
+                      'data bytes), recover the key, flip later bits and '
+                      're-tag', k.loc(fi, nd))
+    rep.floor('C01.R13', 'main-key body encryptions', n, 1)
+
+
 def run(idx, rep, tier):
     k = Kit(idx, rep)
     rep.assumptions += NOT_DECIDED
@@ -935,6 +1006,7 @@ def run(idx, rep, tier):
     r9(k)
     r10(k)
     r12(k)
+    r13(k)
     # R8: the two directions use different integrity / encryption keys and
     # each direction its own parameters: = C02.R2 (key schedule by data flow)
     from .c02 import r2 as c02r2
